@@ -27,6 +27,15 @@ theorem c16_before_after_moments (fns : List Callee) (fx fx' : List Nat) (f : Na
       = (runOne fns false fx' (f + 1) (.op [] [] k) (s.fire b)).onNormal (·.fire a) :=
   runOne_op_monitor fx fx' f b a k s
 
+/-- … for the function's final `end`: its `before` probes fire when the body falls through to it, in front of the function-exit
+    probes; a branch to the function label, a `return` and a trap leave the function without executing that `end` -/
+theorem c16_before_final_end (F : Func) (base : List Nat) (s : St) (pd : Option SA) :
+    finish true F base (.normal s) = .returned (s.stack.take F.nres) ((s.fire F.endBefore).fire F.exit)
+    ∧ finish true F base (.br 0 pd s) = .returned (s.stack.take F.nres) (((s.exitTo base F.nres).fire (saPs pd)).fire F.exit)
+    ∧ finish true F base (.ret s) = .returned (s.stack.take F.nres) s
+    ∧ finish true F base (.trap s) = .trapped s := by
+  simp [finish]
+
 /-- … for branches: `before` fires when the branch is about to execute; `after` only when a conditional branch is not
     taken; never for `br`, `br_table`, `return`, `unreachable` (their `after` code is dead) -/
 theorem c16_before_after_branches (fns : List Callee) (fx b a : List Nat) (n : Nat) (ts : List Nat) (d : Nat) (s : St) (f : Nat) :
